@@ -81,3 +81,35 @@ Proof. exact kf1_C04_class_reachable. Qed.
 Check C04_known_finding_class : forall p t f, MarginsInv t -> (kf1_C04 (mkVt p t) f = true <-> (exists c, f = Print c) /\ awm t = true /\ pend t = true /\ cur_row t = bot t /\ bot t < rows t - 1).
 Print Assumptions C04_known_finding_class.
 
+From Avt Require Import Proofs.ModeSem.
+(** Proofs/ModeSem.v: semantics of the mode commands *)
+(** what the mode-setting commands the quantifier interleaves DO (exact record equalities, every state): SM 4 *)
+Theorem C04_insert_mode_set : forall t, execute t (Sm [Insert]) = Ok (t <| ins := true |>).
+Proof. exact sem_insert_set. Qed.
+Check C04_insert_mode_set : forall t, execute t (Sm [Insert]) = Ok (t <| ins := true |>).
+Print Assumptions C04_insert_mode_set.
+
+(** RM 4 *)
+Theorem C04_insert_mode_reset : forall t, execute t (Rm [Insert]) = Ok (t <| ins := false |>).
+Proof. exact sem_insert_reset. Qed.
+Check C04_insert_mode_reset : forall t, execute t (Rm [Insert]) = Ok (t <| ins := false |>).
+Print Assumptions C04_insert_mode_reset.
+
+(** DECSET 7 changes only the flag *)
+Theorem C04_autowrap_set : forall t, execute t (Decset [AutoWrap]) = Ok (t <| awm := true |>).
+Proof. exact sem_autowrap_set. Qed.
+Check C04_autowrap_set : forall t, execute t (Decset [AutoWrap]) = Ok (t <| awm := true |>).
+Print Assumptions C04_autowrap_set.
+
+(** DECRST 7 changes only the flag *)
+Theorem C04_autowrap_reset : forall t, execute t (Decrst [AutoWrap]) = Ok (t <| awm := false |>).
+Proof. exact sem_autowrap_reset. Qed.
+Check C04_autowrap_reset : forall t, execute t (Decrst [AutoWrap]) = Ok (t <| awm := false |>).
+Print Assumptions C04_autowrap_reset.
+
+(** ... in particular a pending wrap is neither cancelled nor performed by DECAWM (so `wrap pending` does not imply `auto-wrap on`: reachable by CSI ?7l in the pending position) *)
+Theorem C04_autowrap_pending : forall t (b : bool) t', execute t (if b then Decset [AutoWrap] else Decrst [AutoWrap]) = Ok t' -> awm t' = b /\ pend t' = pend t /\ cur_col t' = cur_col t /\ cur_row t' = cur_row t /\ buf t' = buf t.
+Proof. exact sem_autowrap_pending. Qed.
+Check C04_autowrap_pending : forall t (b : bool) t', execute t (if b then Decset [AutoWrap] else Decrst [AutoWrap]) = Ok t' -> awm t' = b /\ pend t' = pend t /\ cur_col t' = cur_col t /\ cur_row t' = cur_row t /\ buf t' = buf t.
+Print Assumptions C04_autowrap_pending.
+
